@@ -24,6 +24,7 @@ the back-ends are covered by `GroupSpec`, property C18), lifetimes of handed-out
 block, aligned) are `layout_regions` below.
 -/
 import Hb.Proofs.History
+import Hb.Proofs.HistoryX
 import Hb.Props.C17
 namespace Hb.C02
 open Hb
@@ -55,6 +56,26 @@ theorem valid_after_every_call (hc : CfgOk cfg) (hg : GuardRuns cfg) (env : Env)
       ((∀ j, env.allocOk j = true) → ∃ obs w, Map.run cfg env ops w0 = some (obs, w))) :=
   ⟨fun op w h => step_safe hc hg env op w h,
    fun ops w0 h0 => (run_safe hc hg env ops w0 h0).2⟩
+
+/-- The same for the WHOLE modelled `HashMap` API in one history (`MapOpX`): the calls above
+    interleaved in any order with `entry` / `entry_ref` / `rustc_entry` / `raw_entry_mut` followed by
+    any method chain (with ANY caller-supplied hash — no contract is assumed here), `raw_entry`
+    look-ups, `try_insert`, `extend`, `get_many_mut` and `Index`: never undefined behaviour, a valid
+    table with `len` = number of stored elements after every call (returned or unwound), for every
+    environment; only a refusing allocator cuts a history short. -/
+theorem no_undefined_behaviour_all_calls (hc : CfgOk cfg) (hg : GuardRuns cfg) (env : Env) :
+    (∀ (op : MapOpX) (w : World), TInv cfg w.t →
+      match Map.stepX cfg env op w with
+      | .ok (_, w') => TInv cfg w'.t ∧ w'.t.items = w'.t.elems.length
+      | .panic _ w' => TInv cfg w'.t ∧ w'.t.items = w'.t.elems.length
+      | .abort => ∃ j, env.allocOk j = false
+      | .fault _ => False) ∧
+    (∀ (ops : List MapOpX) (w0 : World), w0.t = Raw.new cfg.W →
+      Map.runXFaults cfg env ops w0 = false ∧
+      (∀ obs w, Map.runX cfg env ops w0 = some (obs, w) →
+        TInv cfg w.t ∧ w.t.items = w.t.elems.length) ∧
+      ((∀ j, env.allocOk j = true) → ∃ obs w, Map.runX cfg env ops w0 = some (obs, w))) :=
+  ⟨fun op w h => stepX_safe hc hg env op w h, fun ops w0 h0 => runX_safe hc hg env ops w0 h0⟩
 
 /-- `mem::forget` of a part-consumed `drain`: the call hands out the first `k` elements, the
     collection is afterwards the valid empty singleton (nothing dangling: the old block is leaked
@@ -88,6 +109,7 @@ theorem layout_regions (hc : CfgOk cfg) {a : Nat} (hal : cfg.align = 2 ^ a)
 
 #print axioms no_undefined_behaviour
 #print axioms valid_after_every_call
+#print axioms no_undefined_behaviour_all_calls
 #print axioms forgotten_drain_leaves_valid_empty
 #print axioms layout_regions
 
